@@ -381,7 +381,15 @@ func (in *interp) evalList(n *node, lex *frame) (val, *merr) {
 		case "defmacro":
 			return in.formDef(args, lex, true)
 		case "let":
-			return in.formLet(args, lex)
+			return in.formLet(args, lex, false)
+		case "let*":
+			return in.formLet(args, lex, true)
+		case "dotimes":
+			return in.formDotimes(args, lex)
+		case "flet":
+			return in.formFlet(args, lex, false)
+		case "labels":
+			return in.formFlet(args, lex, true)
 		case "lambda":
 			return in.mkFun(args[0], args[1:], lex, false), nil
 		case "list":
@@ -600,14 +608,65 @@ func (in *interp) formDef(args []*node, lex *frame, macro bool) (val, *merr) {
 	return val{k: vNil, loose: true}, nil
 }
 
-func (in *interp) formLet(args []*node, lex *frame) (val, *merr) {
+// formLet: let evaluates every initialiser outside the new scope, let* inside
+// the scope built so far.
+func (in *interp) formLet(args []*node, lex *frame, sequential bool) (val, *merr) {
 	fr := &frame{vars: map[string]val{}, up: lex}
 	for _, b := range args[0].kids {
-		v, err := in.eval(b.kids[1], lex)
+		scope := lex
+		if sequential {
+			scope = fr
+		}
+		v, err := in.eval(b.kids[1], scope)
 		if err != nil {
 			return val{}, err
 		}
 		fr.vars[b.kids[0].s] = v
+	}
+	res := nilVal
+	for _, b := range args[1:] {
+		v, err := in.eval(b, fr)
+		if err != nil {
+			return val{}, err
+		}
+		res = v
+	}
+	return res, nil
+}
+
+// formDotimes: (dotimes (var n) body...) runs the body with var bound
+// lexically to 0..n-1; its own value is not the subject (nil).
+func (in *interp) formDotimes(args []*node, lex *frame) (val, *merr) {
+	name := args[0].kids[0].s
+	cnt, err := in.eval(args[0].kids[1], lex)
+	if err != nil {
+		return val{}, err
+	}
+	if cnt.k != vInt {
+		return val{}, in.errf("error", "dotimes: count is not an integer")
+	}
+	for i := 0; i < cnt.n; i++ {
+		fr := &frame{vars: map[string]val{name: {k: vInt, n: i}}, up: lex}
+		for _, b := range args[1:] {
+			if _, err := in.eval(b, fr); err != nil {
+				return val{}, err
+			}
+		}
+	}
+	return val{k: vNil, loose: true}, nil
+}
+
+// formFlet: local functions live in the same (single) namespace as every
+// other lexical binding.  flet bodies do not see the new bindings, labels
+// bodies do.
+func (in *interp) formFlet(args []*node, lex *frame, recursive bool) (val, *merr) {
+	fr := &frame{vars: map[string]val{}, up: lex}
+	for _, b := range args[0].kids {
+		scope := lex
+		if recursive {
+			scope = fr
+		}
+		fr.vars[b.kids[0].s] = in.mkFun(b.kids[1], b.kids[2:], scope, false)
 	}
 	res := nilVal
 	for _, b := range args[1:] {
